@@ -46,13 +46,81 @@ def style_family(ctx, rng):
     return fam
 
 
+# ---- mode information under an omitted file style (`--file-style omit`, not color-only) ------------------------------
+# The header that would show the mode change is not written, but the mode information is stored all the same; it must
+# go with its file. Until fix PENDING the early return of write_generic_diff_header_header_line left it in place for
+# the rest of the run, and handle_pending_line_with_diff_name took its "mode change pending" branch at every later
+# call: in input that delta reads as plain `diff -u` output (where that function also acts outside the file-header
+# states) it marked the current file pair as announced although the state's style (raw, no decoration) said "not
+# handled", and a later file-operation line (`new file mode …`) was shown instead of swallowed, or the reverse.
+# Sections of plain `diff -u` input: the first carries mode lines; the later ones put file-operation lines, hunk headers,
+# hunk lines, commit lines and submodule-log lines in every order. Every hunk is complete (the `--- ` counter is idle at
+# the next section), nothing else of `SectionBoundary` is at stake: no header is ever shown.
+OPS = ["new file mode 100644", "deleted file mode 100644", "new file mode 100755"]
+HUNKS = [[], ["@@ -0,0 +1 @@"], ["@@ -0,0 +1 @@", "+y"], ["@@ -1 +1 @@", " x"], ["@@ -1 +1 @@", "-x", "+y"]]
+CLOSERS = [["commit " + M.HASH], ["Submodule sub 1111111..2222222:"], []]
+MODES = [("100644", "100755"), ("100755", "100644"), ("100644", "120000")]
+
+
+def plain_mode_section(rng, k, with_names):
+    """`diff -u` command line, then `old mode` / `new mode` lines (not something diff writes: any text may reach delta)"""
+    a, b = MODES[k % len(MODES)]
+    ls = [f"diff -u a{k} b{k}", "old mode " + a, "new mode " + b]
+    return ls + ([f"--- a{k}", f"+++ b{k}"] + rng.choice(HUNKS[2:]) if with_names else [])
+
+
+def plain_ops_section(k, pre, hunk, mid, closer, post):
+    return [f"diff -u c{k} d{k}", f"--- c{k}", f"+++ d{k}"] + pre + hunk + mid + closer + post
+
+
+def stale_mode_shapes(ctx, rng):
+    """(pre, hunk, mid, closer, post): quick = the shapes around a commit / submodule-log line that is met right after
+    a hunk header or after hunk lines, with a file-operation line before and after; thorough = all of them"""
+    opt = [[]] + [[o] for o in OPS[:2]]
+    shapes = [(pre, hunk, mid, closer, post) for pre in opt for hunk in HUNKS for mid in opt for closer in CLOSERS
+              for post in ([], [OPS[0]], [OPS[1], OPS[0]])]
+    if not ctx.quick():
+        return shapes
+    core = [sh for sh in shapes if sh[1] in (HUNKS[1], HUNKS[3]) and sh[3] and sh[4] == [OPS[0]] and (sh[0] == [] or sh[2] == [])]
+    return core + rng.sample(shapes, 12)
+
+
+def stale_mode_family(ctx, rng):
+    """[(family, cfg, seq of kinds, sections)] - hook level (and model): file style omit x hunk-header style (raw without /
+    with decoration, normal, omit) x commit style (normal, raw, omit)."""
+    fam = []
+    HH = [dict(hhRaw=1, hhDeco=0), dict(), dict(hhRaw=1, hhDeco=1), dict(hhOmit=1)]
+    CM = [dict(), dict(commitRaw=1), dict(commitOmit=1), dict(commitDeco=1)]
+    for n, shape in enumerate(stale_mode_shapes(ctx, rng)):
+        # quick: the raw hunk-header style without decoration (the state in which `should_handle` says no) with a commit
+        # style that handles, then the others in turn
+        hh, cm = (HH[0], CM[0]) if n % 3 == 0 else (HH[(n // 3) % len(HH)], CM[(n // 5) % len(CM)])
+        cfg = M.gen_cfg(rng, color_only=False)
+        for k in ("fileRaw", "fileOmit", "hhRaw", "hhOmit", "hhDeco", "commitRaw", "commitOmit", "commitDeco"):
+            cfg.d[k] = 0
+        cfg.d["fileOmit"] = 1
+        cfg.d["fileDeco"] = rng.choice([0, 0, 1, 3])
+        cfg.d.update(hh); cfg.d.update(cm)
+        secs = [plain_mode_section(rng, 0, with_names=(n % 4 == 1))]
+        if n % 5 == 4:       # a section in between: the mode information has to cross more than one boundary
+            secs.append(plain_ops_section(1, [], rng.choice(HUNKS[2:]), [], [], []))
+        secs.append(plain_ops_section(2, *shape))
+        seq = [("plain_mode", None)] + [("plain_ops", None)] * (len(secs) - 1)
+        fam.append(("file-style-omit-stale-mode", cfg, seq, secs))
+    return fam
+
+
 def run(ctx, rep):
     rep.rule = ("ordered pairs / random sequences of complete git file sections of every kind (and a submodule log of "
                 "diff.submodule=log after and before every kind), each ending in any line kind, "
                 "under random unified-view configurations: delta(A++B) must equal delta(A)++delta(B), and repeated runs must be "
                 "byte-identical; non-trivial = >= 2 sections of different kinds; distinct by (config, input). Style family: "
                 "raw / omit x decorations (and color-only) for the file, hunk-header and commit styles, over sequences that start "
-                "with a mode change (state that a header write consumes), hook level and real binary with delta's own decorations")
+                "with a mode change (state that a header write consumes), hook level and real binary with delta's own decorations. "
+                "Omitted file style: mode_changed / mode_only / binary_mode_changed followed by every other kind (hook level and "
+                "binary), and sequences of plain `diff -u` sections whose first carries mode lines and whose later ones put "
+                "file-operation lines, hunk headers, commit and submodule-log lines in every order, under raw / normal / "
+                "omitted hunk-header and commit styles (the mode information must not outlive its file)")
     rng = ctx.rng
     seqs = []
     kinds = M.FILE_KINDS
@@ -77,8 +145,17 @@ def run(ctx, rep):
         for seq in seqs:
             yield None, M.gen_cfg(rng, color_only=(rng.random() < 0.15)), seq, 0.3
         yield from style_family(ctx, rng)
+        # omitted file style, not color-only: a section with a mode change followed by each of the other kinds
+        for first in MODE_KINDS:
+            for second in (["modified"] + (rng.sample([k for k in kinds if k != "modified"], 3) if ctx.quick() else
+                                           [k for k in kinds if k != "modified"])):
+                cfg = M.gen_cfg(rng, color_only=False)
+                cfg.d["fileRaw"], cfg.d["fileOmit"] = 0, 1
+                yield "file-style-omit-mode-first", cfg, [(first, rng.choice(ENDINGS)), (second, rng.choice(ENDINGS))], 0.2
+        for fam, cfg, seq, secs in stale_mode_family(ctx, rng):
+            yield fam, cfg, seq, secs
     for fam, cfg, seq, p_commit in items():
-        secs = [section(rng, k, e, p_commit) for k, e in seq]
+        secs = p_commit if isinstance(p_commit, list) else [section(rng, k, e, p_commit) for k, e in seq]
         seq = list(seq) + [fam]          # the family rides along as the last element of the meta record
         whole = [l for s in secs for l in s]
         cases.append((cfg, [l.encode() for l in whole]))
@@ -103,7 +180,10 @@ def run(ctx, rep):
                  sample=dict(kinds=seq, n_lines=len(whole), args=" ".join(cfg.args()[:4]) + " …"))
         for k, _ in seq:
             rep.count("kind:" + k)
-        if fam:
+        if fam and fam.startswith("file-style-omit-"):
+            rep.count("family:" + fam + ":" + "+".join(k for k, _ in seq[:2]) +
+                      (":hh-raw-no-decoration" if cfg.d["hhRaw"] and not cfg.d["hhDeco"] and fam.endswith("stale-mode") else ""))
+        elif fam:
             rep.count("family:" + fam + (":color-only" if cfg.d["colorOnly"] else ":deco-" + M.DECOS[cfg.d[
                 {"file": "fileDeco", "hunk": "hhDeco", "commit": "commitDeco"}[fam.split("-")[0]]]].replace(" ", "")))
         if impl.panic or any(p[0].panic for p in parts):
@@ -146,6 +226,21 @@ def run(ctx, rep):
         secs = [section(rng, k, e, 0.6 if fam.startswith("commit") else 0.2) for k, e in seq]
         args = ["--no-gitconfig", "--true-color=always"] + sargs + ([] if sure else rng.choice([[], ["--line-numbers"], ["--color-only"]]))
         bjobs.append((args, seq, secs, fam))
+
+    # omitted file style with delta's own styles: mode change first, then every other kind; and the plain `diff -u`
+    # sections above under the raw hunk-line / hunk-header styles in which `should_handle` says no
+    for first in MODE_KINDS:
+        for second in ["modified"] + rng.sample([k for k in M.FILE_KINDS if k != "modified"], ctx.n(2, 12)):
+            seq = [(first, rng.choice(ENDINGS)), (second, rng.choice(ENDINGS))]
+            secs = [section(rng, k, e, 0.2) for k, e in seq]
+            bjobs.append((["--no-gitconfig", "--true-color=always", "--file-style", "omit"], seq, secs, "file-style-omit-mode-first"))
+    RAW_STATES = [["--zero-style", "raw"], ["--hunk-header-style", "raw", "--hunk-header-decoration-style", "none"],
+                  ["--zero-style", "raw", "--plus-style", "raw", "--minus-style", "raw"], []]
+    shapes = stale_mode_shapes(ctx, rng)
+    for n, shape in enumerate(shapes if not ctx.quick() else shapes[:24]):
+        args = ["--no-gitconfig", "--true-color=always", "--file-style", "omit", "--commit-style", "normal"] + RAW_STATES[n % len(RAW_STATES)]
+        secs = [plain_mode_section(rng, 0, with_names=(n % 4 == 1)), plain_ops_section(2, *shape)]
+        bjobs.append((args, [("plain_mode", None), ("plain_ops", None)], secs, "file-style-omit-stale-mode"))
 
     def brun(j):
         args, seq, secs, _ = j
